@@ -47,6 +47,10 @@ func createOrGetWriter(topic topic.Topic) event.Writer {
 	if writer, ok := writers[topic]; ok {
 		return writer
 	}
+	if w := verifWriterFor(topic); w != nil {
+		writers[topic] = w
+		return w
+	}
 	if viper.GetBool("enableKafka") {
 		writers[topic] = event.NewWriterWithTopic(topic)
 	} else {
